@@ -29,9 +29,12 @@ for _en in ("e", "on", "on0", "enabled"):
     CASES.append(("sub/ enabled by `sub/%s`" % _en, "/a/sub/", "sub/", "sub/" + _en, 1, ("/a/sub/" + _en, "sub/" + _en)))
 CASES.append(("self: at the root enabled by `on`", "/", "self:", "on", 0, ("/on", "on")))
 CASES.append(("sub/ enabled by the sibling `sub_on`", "/a/sub/", "sub/", "sub_on", 1, None))
+# the toggle says true: the port is enabled and nothing is handed to the walker (ordinary traversal reaches the toggle)
+ENABLED_CASES = [("self: enabled by `on`, switched on", "/a/sub/", "self:", "on", 0), ("sub/ enabled by `sub/on`, switched on", "/a/sub/", "sub/", "sub/on", 1),
+                 ("sub/ enabled by the sibling `sub_on`, switched on", "/a/sub/", "sub/", "sub_on", 1)]
 
 
-def evaluate(unit, loc, port_name, enabled_by, relative):
+def evaluate(unit, loc, port_name, enabled_by, relative, answer="F"):
     """-> [(location, name or ("outside the location", offset))] : the walker calls port_is_enabled makes when the toggle says false"""
     fn = unit.function("port_is_enabled")
     ps = unit.params(fn)
@@ -86,9 +89,9 @@ def evaluate(unit, loc, port_name, enabled_by, relative):
             if nm == "ports":
                 return ("ports",)
             if nm == "type" and "rtosc_arg_val_t" in (A.qtype(A.strip_casts(ks[0])) or ""):
-                return ord("F")
+                return ord(answer)
             if nm in ("i", "T") and "val" in A.src(n):
-                return 0
+                return 1 if answer == "T" else 0
             return NotImplemented
         if k == "UnaryOperator" and n.get("opcode") == "&" and "rtosc_arg_val_t" in (A.qtype(A.strip_casts(ks[0])) or ""):
             return ("rval",)
@@ -137,8 +140,8 @@ def evaluate(unit, loc, port_name, enabled_by, relative):
     ev = FD.Eval(deref=deref, store=store, node_hook=hook, stmt_hook=stmt_hook, call=call, max_steps=6000)
     h["ev"] = ev
     res = ev.call_function(unit, fn, [("port",), LOC, 64, ("base",), 1, relative, ("walker",), 0])
-    if res:
-        raise FD.Unknown("port_is_enabled answers `enabled` although the toggle says false", fn)
+    if bool(res) != (answer == "T"):
+        calls.append(("answers `%s` although the toggle says %s" % ("enabled" if res else "disabled", "true" if answer == "T" else "false"), ""))
     return calls
 
 
@@ -149,4 +152,8 @@ def check(unit):
         exp = [want] if want else []
         if [tuple(g) if isinstance(g, (list, tuple)) else g for g in got] != exp:
             bad.append({"case": desc, "walker_calls": [[g[0], g[1] if isinstance(g[1], str) else list(g[1])] for g in got], "expected": [list(e) for e in exp]})
-    return bad, len(CASES)
+    for desc, loc, pn, en, rel in ENABLED_CASES:
+        got = evaluate(unit, loc, pn, en, rel, answer="T")
+        if got:
+            bad.append({"case": desc, "walker_calls": [[g[0], g[1] if isinstance(g[1], str) else list(g[1])] for g in got], "expected": []})
+    return bad, len(CASES) + len(ENABLED_CASES)
